@@ -191,7 +191,7 @@ class Call:
 
     def key(self):
         d = self.default
-        return (self.text, (d.year, d.month, d.day, d.hour, d.minute, d.second, d.microsecond), self.dayfirst,
+        return (self.text, (d.year, d.month, d.day, d.hour, d.minute, d.second, d.microsecond, str(d.tzinfo)), self.dayfirst,
                 self.yearfirst, self.fuzzy, self.fwt, self.ignoretz, self.tz.key(),
                 None if self.info is None else (type(self.info).__name__, self.info.dayfirst, self.info.yearfirst),
                 os.environ.get("TZ"))
@@ -308,9 +308,13 @@ def local_desc(naive, fold):
     return "local %d %s same1" % (fold, local_obs(naive.replace(tzinfo=tz.tzlocal(), fold=fold)))
 
 
-def zone_of(dt, warned):
+def zone_of(dt, warned, dflt_tz=None):
     from dateutil import tz
     ti = dt.tzinfo
+    if dflt_tz is not None and ti is dflt_tz:
+        # no zone was applied to the result: it still carries the tzinfo OBJECT of an aware `default=` (the model's `.naive`
+        # / `.naiveWarn` descriptors mean exactly "default.replace(...) as it is")
+        return ("warn " + cps(warned) + " dflt") if warned is not None else "dflt"
     if ti is None:
         if warned is not None:
             return "warn " + cps(warned)
@@ -329,14 +333,14 @@ def zone_of(dt, warned):
     return "other " + type(ti).__name__
 
 
-def canon_ok(r, fwt, warned):
+def canon_ok(r, fwt, warned, dflt_tz=None):
     if fwt:
         dt, toks = r
         t = "[" + ",".join(cps(x) for x in toks) + "]"
     else:
         dt, t = r, "-"
     return "ok %d %d %d %d %d %d %d | %s | %s" % (dt.year, dt.month, dt.day, dt.hour, dt.minute, dt.second,
-                                                 dt.microsecond, zone_of(dt, warned), t)
+                                                 dt.microsecond, zone_of(dt, warned, dflt_tz), t)
 
 
 def run_impl(call, raw=False):
@@ -366,7 +370,7 @@ def run_impl(call, raw=False):
         if issubclass(x.category, UnknownTimezoneWarning):
             m = re.match(r"tzname (.*) identified but not understood", str(x.message), re.S)
             warned = m.group(1) if m else "?"
-    return canon_ok(r, call.fwt, warned), dt, (r if raw else None)
+    return canon_ok(r, call.fwt, warned, getattr(call.default, "tzinfo", None)), dt, (r if raw else None)
 
 
 _ZONE2 = re.compile(r"^(ok [-\d ]+) \| (local|tzi) (.*?) \| (.*)$", re.S)
@@ -376,6 +380,15 @@ def model_answers(ctx, calls):
     """model's canonical answers for calls made under the CURRENT process TZ (two driver phases)"""
     from dateutil import tz
     first = ctx.driver([request(c) for c in calls])
+    # an aware `default=`: where the model applies no zone (`.naive` / `.naiveWarn`) the result keeps the default's tzinfo
+    for i, (c, r) in enumerate(zip(calls, first)):
+        if getattr(c.default, "tzinfo", None) is not None and r.startswith("ok "):
+            parts = r.split(" | ")
+            if parts[1] == "naive":
+                parts[1] = "dflt"
+            elif parts[1].startswith("warn "):
+                parts[1] += " dflt"
+            first[i] = " | ".join(parts)
     out = list(first)
     second, where = [], []
     for i, (c, r) in enumerate(zip(calls, first)):
@@ -724,6 +737,66 @@ def ast_sites(repo):
     extra = [("%s.%s" % k) for k in funcs if k[0] in ("_timelex", "parserinfo", "_ymd", "parser", "_resultbase")
              and k not in MODELLED_FUNCS and k[1] not in ("__repr__", "_repr", "next")]
     return sites, missing, extra
+
+
+# ---------------------------------------------------------------- callees outside _parser.py
+# (file, class, function, the model primitive that stands for it) — the code `parse` reaches outside its own file
+CALLEES = [
+    ("tz/tz.py", "tzstr", "__init__", "PM.tzstrCtor = TzStr.tzstr (C08's model; ValueError 'unknown string format', OverflowError)"),
+    ("tz/tz.py", "tzstr", "_delta", "TzStr.delta (inside TzStr.tzstr)"),
+    ("tz/tz.py", "tzrange", "transitions", "TzStr.transitions / applyDelta (month 13 -> ValueError at query time; PM.strIsdst)"),
+    ("tz/_common.py", "tzrangebase", "tzname", "PM.strNames"),
+    ("tz/_common.py", "tzrangebase", "_isdst", "PM.strIsdst"),
+    ("tz/_common.py", "tzrangebase", "is_ambiguous", "PM.strIsdst (the `amb` test)"),
+    ("tz/_common.py", "tzrangebase", "_naive_isdst", "PM.strIsdst (the `d` test)"),
+    ("tz/tz.py", "tzlocal", "__init__", "environment: -time.timezone / -time.altzone (fed as the names / offsets a tzlocal() built now reports)"),
+    ("tz/tz.py", "tzlocal", "tzname", "environment: n0 / n1 of parser.localfinal"),
+    ("tz/tz.py", "tzlocal", "_isdst", "environment (OverflowError next to 0001-01-01 / 9999-12-31 propagates unchanged)"),
+    ("tz/tz.py", "tzlocal", "_naive_is_dst", "environment"),
+    ("tz/tz.py", "tzlocal", "is_ambiguous", "environment"),
+    ("tz/tz.py", "tzoffset", "__init__", "PM.fixedZone (timedelta(seconds=n): OverflowError)"),
+    ("tz/tz.py", "tzutc", "tzname", "descriptor .utc"),
+    ("tz/_common.py", None, "enfold", "PM.assignFold (fold = 1)"),
+    ("relativedelta.py", "relativedelta", "__init__", "PM.shiftBareWeekday (weekday=…(+1)) / TzStr.delta"),
+    ("relativedelta.py", "relativedelta", "__add__", "PM.shiftBareWeekday (OverflowError past 9999-12-31) / TzStr.applyDelta"),
+    ("relativedelta.py", "relativedelta", "__radd__", "= __add__"),
+]
+
+
+def ast_callee_sites(repo):
+    """Call / Raise / Subscript / BinOp / Compare nodes of the functions `parse` reaches OUTSIDE _parser.py (zone objects it
+    builds and queries, relativedelta arithmetic), as `file:Class.func:kind:source` with multiplicity, each function mapped to
+    the model primitive that stands for it"""
+    import ast, collections
+    sites = collections.Counter()
+    missing = []
+    trees = {}
+    for rel, cname, fname, _prim in CALLEES:
+        if rel not in trees:
+            try:
+                trees[rel] = ast.parse(open(os.path.join(repo, "src", "dateutil", rel)).read())
+            except OSError:
+                trees[rel] = None
+        tree = trees[rel]
+        fn = None
+        if tree is not None:
+            for node in ast.walk(tree):
+                if cname is None and isinstance(node, ast.FunctionDef) and node.name == fname and fn is None:
+                    fn = node                    # (enfold is defined inside an `if`: the first definition, the one Python 3 uses)
+                elif isinstance(node, ast.ClassDef) and node.name == cname:
+                    for n in node.body:
+                        if isinstance(n, ast.FunctionDef) and n.name == fname:
+                            fn = n
+        if fn is None:
+            missing.append("%s:%s.%s" % (rel, cname or "", fname))
+            continue
+        for n in ast.walk(fn):
+            if isinstance(n, (ast.Call, ast.Subscript, ast.BinOp, ast.Raise, ast.Compare, ast.Assert)):
+                src = ast.unparse(n)
+                if isinstance(n, ast.Raise):
+                    src = "raise " + (ast.unparse(n.exc.func) if isinstance(n.exc, ast.Call) else ast.unparse(n.exc) if n.exc else "")
+                sites["%s:%s.%s:%s:%s" % (rel, cname or "", fname, type(n).__name__, src[:140])] += 1
+    return sites, missing
 
 
 # ---------------------------------------------------------------- writes into argument-derived structures
